@@ -21,7 +21,7 @@ CHECKS = {
   "ref": "DESIGN.md section 5 C06",
  },
  "C07": {
-  "bins": ["httpresp"], "specs": ["http"],
+  "bins": ["httpresp", "url"], "specs": ["http"],
   "level": "model_checking",
   "technique": "TLA+ model of the response serialiser and parser (action by action, bytes delivered in segments) plus the client redirect machine, checked by TLC against denotational RenderResp/DenoteResp; TLC vectors and behaviours replayed on Vec<u8>::from(Response), Response::from_stream, SetCookie and Client over loopback; random large cases trace-validated by TLC",
   "text": "TLC runs the Ser_*/Par_* actions on every status code, header lists 0..3, bodies <=6 under every composition into chunks and hex spelling, arbitrary read segmentation with termination, and all redirect chains <=5 over {301,302,307} x {relative, absolute}, refuting CrlfAfterBody and 13 named bugs; the same spaces are replayed on the real code under split plans (all-at-once, bytewise, every split point, random) and byte mappings, incl. all 2^7 Set-Cookie attribute subsets, the StatusCode tables for 0..999 and Client::get(..).with_redirects(true) against scripted servers on 127.0.0.1:80; logs of random responses (0..40 headers, 64 KiB bodies, random chunkings) and random redirect scripts are accepted only if Trace_HttpResp / Trace_Client explain them.",
